@@ -58,7 +58,7 @@ example : M3.IsRotation (rot3 1) := rot3_isRotation 1
 
 
 /-- products of `rot`s: `iau1980.nutation` -/
-theorem nutation80_isRotation (ttt dpsi deps : ℝ) : M3.IsRotation (nutation80 ttt dpsi deps) := by
+theorem nutation80_isRotation (eps dpsi deps : ℝ) : M3.IsRotation (nutation80 eps dpsi deps) := by
   simp only [nutation80]
   exact ((rot1_isRotation _).mul (rot3_isRotation _)).mul (rot1_isRotation _)
 
@@ -134,9 +134,9 @@ theorem provider_isRotation (D : DateArgs) (hcio : (cioXY D).1 ^ 2 + (cioXY D).2
   intro p hp
   simp only [List.mem_cons, List.not_mem_nil, or_false] at hp
   rcases hp with rfl | rfl | rfl | rfl | rfl | rfl | rfl | rfl
-  · exact ⟨expand (rot3 (-deg2rad (equinox80 D.ttt D.dpsi4 D.day false))) none, by simp [edgeBuiltin], by simp only [expand]; exact rot3_isRotation _⟩
+  · exact ⟨expand (rot3 (-deg2rad (equinox80 D.ttt D.eps4 D.dpsi4 D.day false))) none, by simp [edgeBuiltin], by simp only [expand]; exact rot3_isRotation _⟩
   · exact ⟨expand (rot3 (deg2rad (-gastDeg80 D))) (some (vecOf (rate80 D.lod)).neg), by simp [edgeBuiltin], by simp only [expand]; exact rot3_isRotation _⟩
-  · exact ⟨expand (nutation80 D.ttt D.dpsi106 D.deps106) none, by simp [edgeBuiltin], by simp only [expand]; exact nutation80_isRotation _ _ _⟩
+  · exact ⟨expand (nutation80 D.eps106 D.dpsi106 D.deps106) none, by simp [edgeBuiltin], by simp only [expand]; exact nutation80_isRotation _ _ _⟩
   · exact ⟨expand (precession80 D.ttt) none, by simp [edgeBuiltin], by simp only [expand]; exact precession80_isRotation _⟩
   · exact ⟨expand (polar80 D) none, by simp [edgeBuiltin], by simp only [expand]; exact polar80_isRotation _⟩
   · exact ⟨expand (polar10 D) none, by simp [edgeBuiltin], by simp only [expand]; exact polar10_isRotation _⟩
@@ -342,5 +342,147 @@ theorem earth_rotation_rate (D : DateArgs) :
     edgeBuiltin D "TIRF" "CIRF" = some (expand (rot3 (-(era10 D.jdut1)))
       (some ⟨-0, -0, -(7.292115146706979e-5 * (1 - D.lod / 1000.0 / 86400.0))⟩)) := by
   constructor <;> simp [edgeBuiltin, rate80, rate10, vecOf, V3.neg]
+
+
+/-! ## history independence
+
+The result of a conversion is a function of the inputs of that call only — the instant, the EOP record attached to the date, the
+frame graph and the two frames (and, for `Frame.transform`, the state: `frameTransform` is a function by construction) — **for every
+history of earlier calls**.  The model of a process (`sessionRun`, Model/FramesR.lean) carries the one date-dependent memo the code
+has, `iau1980._nutation._cache`, keyed like the code keys it (text of the date, number of terms). -/
+
+/-- every entry of the memo under a key of a later call is what that call would compute from scratch -/
+def MemoOK (m : NutMemo) (cs : List Call) : Prop :=
+  ∀ c ∈ cs, (∀ v, m.lookup (c.text, 106) = some v → v = nut106 c.D) ∧ (∀ v, m.lookup (c.text, 4) = some v → v = nut4 c.D)
+
+/-- **the key of the `_nutation` memo determines its value** over the calls of a history: two dates with the same text have the same
+nutation triples (they have: the triples are functions of the TT century — `KeyOK_of_text_determines_tt`) -/
+def KeyOK (cs : List Call) : Prop :=
+  ∀ c ∈ cs, ∀ c' ∈ cs, c.text = c'.text → nut106 c.D = nut106 c'.D ∧ nut4 c.D = nut4 c'.D
+
+theorem withNut_self (D : DateArgs) : withNut D (nut106 D) (nut4 D) = D := by cases D; rfl
+
+theorem memoGet_fst (m : NutMemo) (k : Nat × Nat) (x : Nut) (h : ∀ v, m.lookup k = some v → v = x) : (memoGet m k x).1 = x :=
+  Memo.call_fst Prod.fst Prod.snd m (k, x) h
+
+theorem memoGet_lookup (m : NutMemo) (k : Nat × Nat) (x : Nut) (k' : Nat × Nat) (v : Nut)
+    (h : (memoGet m k x).2.lookup k' = some v) : m.lookup k' = some v ∨ (k' = k ∧ v = x) :=
+  Memo.call_lookup Prod.fst Prod.snd m (k, x) k' v h
+
+theorem sessionStep_pure (names : List String) (m : NutMemo) (c : Call) (cs : List Call)
+    (hk : KeyOK (c :: cs)) (hm : MemoOK m (c :: cs)) :
+    (sessionStep names m c).1 = callPure names c ∧ MemoOK (sessionStep names m c).2 cs := by
+  obtain ⟨hc106, hc4⟩ := hm c (List.mem_cons_self ..)
+  -- the memo after the (possible) consultation under terms = 106
+  have h106 : ∀ (t : Bool), (if t then memoGet m (c.text, 106) (nut106 c.D) else (nut106 c.D, m)).1 = nut106 c.D ∧
+      ∀ k' v, (if t then memoGet m (c.text, 106) (nut106 c.D) else (nut106 c.D, m)).2.lookup k' = some v →
+        m.lookup k' = some v ∨ (k' = (c.text, 106) ∧ v = nut106 c.D) := by
+    intro t
+    cases t
+    · exact ⟨rfl, fun k' v h => Or.inl h⟩
+    · exact ⟨memoGet_fst m _ _ hc106, fun k' v h => memoGet_lookup m _ _ k' v h⟩
+  unfold sessionStep
+  simp only
+  generalize touches names c.hist c.a c.b = t
+  obtain ⟨t1, t2⟩ := t
+  simp only
+  obtain ⟨e106, l106⟩ := h106 t1
+  generalize (if t1 then memoGet m (c.text, 106) (nut106 c.D) else (nut106 c.D, m)) = r106 at e106 l106 ⊢
+  have hc4' : ∀ v, r106.2.lookup (c.text, 4) = some v → v = nut4 c.D := by
+    intro v hv
+    rcases l106 _ v hv with h | ⟨h, _⟩
+    · exact hc4 v h
+    · simp at h
+  have h4 : (if t2 then memoGet r106.2 (c.text, 4) (nut4 c.D) else (nut4 c.D, r106.2)).1 = nut4 c.D ∧
+      ∀ k' v, (if t2 then memoGet r106.2 (c.text, 4) (nut4 c.D) else (nut4 c.D, r106.2)).2.lookup k' = some v →
+        r106.2.lookup k' = some v ∨ (k' = (c.text, 4) ∧ v = nut4 c.D) := by
+    cases t2
+    · exact ⟨rfl, fun k' v h => Or.inl h⟩
+    · exact ⟨memoGet_fst r106.2 _ _ hc4', fun k' v h => memoGet_lookup r106.2 _ _ k' v h⟩
+  obtain ⟨e4, l4⟩ := h4
+  generalize (if t2 then memoGet r106.2 (c.text, 4) (nut4 c.D) else (nut4 c.D, r106.2)) = r4 at e4 l4 ⊢
+  refine ⟨by rw [e106, e4, withNut_self]; rfl, ?_⟩
+  intro c' hc'
+  have hkk := hk c (List.mem_cons_self ..) c' (List.mem_cons_of_mem _ hc')
+  obtain ⟨hm106, hm4⟩ := hm c' (List.mem_cons_of_mem _ hc')
+  constructor
+  · intro v hv
+    rcases l4 _ v hv with h | ⟨h, _⟩
+    · rcases l106 _ v h with h' | ⟨h', hv'⟩
+      · exact hm106 v h'
+      · have : c.text = c'.text := by simp at h'; exact h'.symm
+        rw [hv']; exact (hkk this).1
+    · simp at h
+  · intro v hv
+    rcases l4 _ v hv with h | ⟨h, hv'⟩
+    · rcases l106 _ v h with h' | ⟨h', _⟩
+      · exact hm4 v h'
+      · simp at h'
+    · have : c.text = c'.text := by simp at h; exact h.symm
+      rw [hv']; exact (hkk this).2
+
+/-- **along every history whose memo key determines the memoized value, every call returns what it returns in a fresh process** -/
+theorem sessionRun_pure (names : List String) : ∀ (cs : List Call) (m : NutMemo), KeyOK cs → MemoOK m cs →
+    sessionRun names m cs = cs.map (callPure names) := by
+  intro cs
+  induction cs with
+  | nil => intro _ _ _; rfl
+  | cons c cs ih =>
+    intro m hk hm
+    obtain ⟨h1, h2⟩ := sessionStep_pure names m c cs hk hm
+    simp only [sessionRun, List.map_cons]
+    rw [h1, ih _ (fun a ha b hb => hk a (List.mem_cons_of_mem _ ha) b (List.mem_cons_of_mem _ hb)) h2]
+
+theorem MemoOK_nil (cs : List Call) : MemoOK [] cs := by
+  intro c _; constructor <;> intro v hv <;> simp at hv
+
+/-- **History independence.**  For every history `h` of earlier conversions in the process and every call `c`: the result of `c`
+is `callPure c` — a function of (`c.D`: the instant and the EOP record of the date at hand, the frame graph, the two frames) alone. -/
+theorem session_history_independent (names : List String) (h : List Call) (c : Call) (hk : KeyOK (h ++ [c])) :
+    (sessionRun names [] (h ++ [c])).getLast? = some (callPure names c) := by
+  rw [sessionRun_pure names _ [] hk (MemoOK_nil _)]
+  simp
+
+/-- the same call after two different histories (other instants, other EOP configurations, other orders, repeated requests) returns the same -/
+theorem session_order_independent (names : List String) (h₁ h₂ : List Call) (c : Call)
+    (hk₁ : KeyOK (h₁ ++ [c])) (hk₂ : KeyOK (h₂ ++ [c])) :
+    (sessionRun names [] (h₁ ++ [c])).getLast? = (sessionRun names [] (h₂ ++ [c])).getLast? := by
+  rw [session_history_independent names h₁ c hk₁, session_history_independent names h₂ c hk₂]
+
+/-- `KeyOK` holds when the text of a date determines its TT century — dates given in TT / TAI / GPS / TDB, or in UTC under EOP
+sources that agree on TAI−UTC — the triples in `D` being `_nutation` computed from scratch -/
+theorem KeyOK_of_text_determines_tt (rows : List (List ℝ)) (cs : List Call)
+    (hwf : ∀ c ∈ cs, nut106 c.D = nutOf c.D.ttt rows ∧ nut4 c.D = nutOf c.D.ttt (rows.take 4))
+    (htt : ∀ c ∈ cs, ∀ c' ∈ cs, c.text = c'.text → c.D.ttt = c'.D.ttt) : KeyOK cs := by
+  intro c hc c' hc' ht
+  rw [(hwf c hc).1, (hwf c hc).2, (hwf c' hc').1, (hwf c' hc').2, htt c hc c' hc' ht]
+  exact ⟨rfl, rfl⟩
+
+/-- **The model is faithful to the memo the code has** (`history_independent_partial`: without `KeyOK` the statement fails).  Two
+conversions TOD→MOD-like (routes that consult `terms = 106` only) at dates with the same text: the second one is computed with the
+nutation triple of the FIRST date — e.g. the same UTC text under an EOP source with another TAI−UTC (EOP missing: 0 s instead of
+10…37 s), or, for the public `iau1980.nutation(date)` / `equinox(date)` / `sideral(date, model="apparent")` with their default
+`eop_correction=True`, under an EOP source with other δΔψ, δΔε (known finding C02-nutation-memo-eop). -/
+theorem session_stale (names : List String) (c₁ c₂ : Call) (ht : c₁.text = c₂.text)
+    (h₁ : touches names c₁.hist c₁.a c₁.b = (true, false)) (h₂ : touches names c₂.hist c₂.a c₂.b = (true, false)) :
+    sessionRun names [] [c₁, c₂] =
+      [callPure names c₁, orientConvert (withNut c₂.D (nut106 c₁.D) (nut4 c₂.D)) names c₂.hist c₂.extras c₂.a c₂.b] := by
+  have e : withNut c₁.D (nut106 c₁.D) (nut4 c₁.D) = c₁.D := withNut_self _
+  simp [sessionRun, sessionStep, h₁, h₂, memoGet, Memo.call, List.lookup, ht, e, callPure]
+
+/-- TOD→MOD and PEF→TOD on the built-in graph consult the memo under `terms = 106` only, TEME→TOD under `terms = 4`,
+MOD→EME2000 and the whole IAU-2010 chain not at all -/
+example : touches Generated.orientNames Generated.orientHist 2 3 = (true, false) ∧
+    touches Generated.orientNames Generated.orientHist 1 2 = (true, false) ∧
+    touches Generated.orientNames Generated.orientHist 6 2 = (false, true) ∧
+    touches Generated.orientNames Generated.orientHist 3 4 = (false, false) ∧
+    touches Generated.orientNames Generated.orientHist 0 9 = (false, false) ∧
+    touches Generated.orientNames Generated.orientHist 0 6 = (true, true) := by decide
+
+/-- a history satisfying `KeyOK` with a repeated text: the hypotheses of `session_history_independent` are satisfiable -/
+example (D : DateArgs) : KeyOK [⟨7, D, [], [], 0, 0⟩, ⟨7, D, [], [], 1, 2⟩, ⟨8, D, [], [], 2, 1⟩] := by
+  intro c _ c' _ _
+  simp only [List.mem_cons, List.not_mem_nil, or_false] at *
+  rcases ‹c = _ ∨ _› with rfl | rfl | rfl <;> rcases ‹c' = _ ∨ _› with rfl | rfl | rfl <;> exact ⟨rfl, rfl⟩
 
 end BeyondVerif.C02
